@@ -104,6 +104,7 @@ class C19Struct(Scenario):
         except Exception as e:  # e.g. a counter the format cannot pack: still must be the same before and after
             snap["bytes"] = "exc:" + type(e).__name__
         if name in structs.BLOOM_SUBJECTS:
+            snap["stats"] = [o.estimate_elements(), repr(o.current_false_positive_rate()), o.export_size()]
             snap["cells"] = bytes(o.bloom) if not o.is_on_disk else bytes(o)
             if name == "BloomFilterOnDisk":
                 snap["file"] = common.read_fresh(self.env.scr.abspath(*sub.home))
